@@ -72,3 +72,22 @@ Fixpoint hmismatches_from (m : mtable) (i : nat) (cs : list hcase) : list nat :=
   end.
 
 Definition hmismatches (m : mtable) (cs : list hcase) : list nat := hmismatches_from m 0 cs.
+
+(* ---- several tables with their own regex_flags in one process ------------------- *)
+
+(* tables (fold_case, table), steps (table number, query) with what the implementation showed *)
+Definition mcase := (list ftable * list (nat * query * hobs))%type.
+
+Definition mcase_ok (mci mcs : mtable) (c : mcase) : bool :=
+  let m2 := fun fc : bool => if fc then matches_of mci else matches_of mcs in
+  let steps := map fst (snd c) in
+  let exp := map snd (snd c) in
+  leqb hobs_eqb (mrun m2 (fun l => l) (fst c) steps) exp && leqb hobs_eqb (mrun m2 (@rev N) (fst c) steps) exp.
+
+Fixpoint mmismatches_from (mci mcs : mtable) (i : nat) (cs : list mcase) : list nat :=
+  match cs with
+  | [] => []
+  | c :: rest => if mcase_ok mci mcs c then mmismatches_from mci mcs (S i) rest else i :: mmismatches_from mci mcs (S i) rest
+  end.
+
+Definition mmismatches (mci mcs : mtable) (cs : list mcase) : list nat := mmismatches_from mci mcs 0 cs.
